@@ -36,7 +36,7 @@ ASSUMPTIONS = ['data rows are the rows after the importer\'s own data offset (ti
                'C32_cells_kept_current has the hypotheses late_rows_fit (no row after the first 100 is wider than '
                'the width derived from them) and not blank_first_row_case; C32_cells_kept_repaired has none']
 
-LINEBREAKS = u'\x0b\x0c\x1c\x1d\x1e\x85  '
+LINEBREAKS = u'\x0b\x0c\x1c\x1d\x1e\x85\u2028\u2029'
 SAMPLE = 100
 
 
@@ -73,8 +73,11 @@ class _CsvProxy(object):
 
 def write_csv(grid, d):
   buf = io.StringIO()
+  # csv.writer (QUOTE_MINIMAL) quotes a CR only when CR is part of the lineterminator; a bare unquoted CR IS a
+  # record end in CSV, so such grids are written with QUOTE_ALL to denote the intended grid.
+  quote_all = d.get('quote_all') or ('\r' not in d['lineterminator'] and any('\r' in c for r in grid for c in r))
   w = csv.writer(buf, delimiter=d['delimiter'], quotechar=d['quotechar'], lineterminator=d['lineterminator'],
-                 doublequote=True, quoting=csv.QUOTE_ALL if d.get('quote_all') else csv.QUOTE_MINIMAL)
+                 doublequote=True, quoting=csv.QUOTE_ALL if quote_all else csv.QUOTE_MINIMAL)
   for r in grid:
     w.writerow(r)
   return buf.getvalue()
@@ -247,7 +250,7 @@ def _first_diff(a, b):
 WORDS = [u'a', u'b', u'c', u'x', u'y', u'z', u'name', u'city', u'total', u'N', u'Id', u'foo bar', u'été',
          u'Ω', u'日本', u'\U0001F600', u'q']
 NUMS = [u'1', u'2', u'30', u'4.5', u'-7', u'1e3', u'0', u' 12 ', u'1_000', u'nan', u'٣']
-BLANKS = [u'', u'', u'', u' ', u'\t', u'  ', u'\xa0', u'　']
+BLANKS = [u'', u'', u'', u' ', u'\t', u'  ', u'\xa0', u'\u3000']
 PADDED = [u' a', u'b ', u' c d ', u'\ta', u'x\xa0']
 
 
